@@ -36,6 +36,8 @@ properties! {
     "C07" => c07,
     "C08" => c08,
     "C10" => c10,
+    "C11" => c11,
+    "C12" => c12,
     "C14" => c14,
     "C18" => c18,
     "C19" => c19,
